@@ -191,9 +191,27 @@ Fixpoint zl_eqb (a b : list Z) : bool :=
   | x :: a', y :: b' => Z.eqb x y && zl_eqb a' b'
   | _, _ => false
   end.
+(* evaluation aid only: the same maps re-tabulated as lists, so that look-ups do not walk the history of updates
+   (pointwise equal to the argument on every index: Heap_proofs.compact_eq) *)
+Definition tab (f : Z -> Z) (n : Z) : Z -> Z :=
+  let l := map f (zrange n) in
+  fun i => if (0 <=? i) && (i <? n) then nth (Z.to_nat i) l 0 else f i.
+Definition compact (h : heap) (n : Z) : heap :=
+  let s := tab (h_slot h) (capacity (h_segs h)) in
+  let e0 := tab (h_ent h 0) (n + 1) in
+  let e1 := tab (h_ent h 1) (n + 1) in
+  mkHeap (h_count h) (h_segs h) (h_maxqos h) (h_np h) s
+         (fun hid => if hid =? 0 then e0 else if hid =? 1 then e1 else h_ent h hid).
+Definition compact_keys (k : keymap) (n : Z) : keymap :=
+  let k0 := tab (k 0) (n + 1) in
+  let k1 := tab (k 1) (n + 1) in
+  fun hid => if hid =? 0 then k0 else if hid =? 1 then k1 else k hid.
 Fixpoint hcheck (n : Z) (st : keymap * heap) (ops : list (hop * list Z)) : list Z :=
   match ops with
   | [] => []
-  | (o, e) :: r => let st' := hstep st o in b2z (zl_eqb (dump (snd st') n) e) :: hcheck n st' r
+  | (o, e) :: r =>
+    let st' := hstep st o in
+    let st' := (compact_keys (fst st') n, compact (snd st') n) in
+    b2z (zl_eqb (dump (snd st') n) e) :: hcheck n st' r
   end.
 Definition hcheck0 (n : Z) (ops : list (hop * list Z)) := hcheck n (fun _ _ => 0, empty_heap) ops.
